@@ -309,6 +309,17 @@ add("C34", "TLC on EigBatches.tla (batch schedule of the resumable eigenvalue co
     "and V A V^T = T, the quadrature is exact per probe, the stochastic log-determinant is exact for diagonal operators.",
     TRUST + "the estimators below full order (stochastic error) are not covered.")
 
+add("C32", "TLC on Leapfrog.tla (exact leapfrog trajectories; reversibility and symplecticity checked) and NutsTree.tla (U-turn bookkeeping of the iterative tree doubling = balanced sub-trees of the recursive definition) + replay into leapfrog_step, iterative_build_tree (is_euclidean_uturn wrapped from outside) and generate_hmc_acc_rej",
+    "Leapfrog.tla: one action per integrator step over Rat for two quadratic potentials and a quartic one, diagonal inverse mass matrices, dyadic "
+    "(also negative) step sizes; TLC checks momentum-flip reversibility, that a negative step undoes a positive one and M^T J M = J for the "
+    "accumulated linear map; trajectories are replayed exactly into leapfrog_step; on a non-polynomial potential the real stepper is checked for "
+    "reversibility, unit Jacobian determinant and symplecticity. NutsTree.tla: for sub-trees of 2-16 leaves the partners tested at every odd leaf "
+    "(population count / trailing ones) are exactly the aligned blocks ending there, no slot is stale, the whole sub-tree is tested at its end; "
+    "the real iterative_build_tree is run with Python control flow and a wrapped is_euclidean_uturn: tested pairs, sub-tree ends and proposal "
+    "leaf are mapped to leaf indices on the orbit and compared. generate_hmc_acc_rej: accepted state is the start or the flipped end, the decision "
+    "is the Bernoulli draw of min(1, exp(H0 - H1)).",
+    TRUST + "the statistical part of the statement (long chains reproduce the moments) has no finite-state content and is NOT decided by this check.")
+
 
 def main():
     props = [json.loads(l) for l in open(os.path.join(HERE, "properties.jsonl"))]
